@@ -24,6 +24,13 @@ def is_self_attr(n):
     return isinstance(n, ast.Attribute) and isinstance(n.value, ast.Name) and n.value.id == "self"
 
 
+def _is_bytes_alias(mod, name):
+    """Module-level NAME = str if PY2 else bytes (either order of str/bytes)."""
+    v = mod.consts.get(name)
+    return isinstance(v, ast.IfExp) and isinstance(v.body, ast.Name) and isinstance(v.orelse, ast.Name) \
+        and {v.body.id, v.orelse.id} <= {"str", "bytes"}
+
+
 def method_of(prog, cls, name):
     """The method a PDU object of class cls runs for `name`: its own or the nearest inherited one of the program."""
     return prog.lookup_method(cls, name)
@@ -178,6 +185,8 @@ class EncoderLayout:
             return self.selfbuf[n.attr]
         if isinstance(n, ast.Call) and isinstance(n.func, ast.Name) and n.func.id in ("bytes", "str") and len(n.args) == 1 and not n.keywords:
             return self.view_of(n.args[0])
+        if isinstance(n, ast.Call) and isinstance(n.func, ast.Name) and len(n.args) == 1 and not n.keywords and _is_bytes_alias(self.mod, n.func.id):
+            return self.view_of(n.args[0])       # NAME = str if PY2 else bytes, decided once at import
         if isinstance(n, ast.IfExp):
             a, b = self.view_of(n.body), self.view_of(n.orelse)
             return a if a is not None and a == b else None
@@ -376,7 +385,8 @@ class EncoderLayout:
             old = self.vals[s.target.id]
             new = self.vdesc(s.value)
             parts = (list(old[1]) if old[0] == "sum" else [old]) + (list(new[1]) if new[0] == "sum" else [new])
-            self.vals[s.target.id] = ("sum", tuple(parts))
+            parts = [x for x in parts if x != ("const", 0)] or [("const", 0)]        # n = 0; n += a; n += b  is  a + b
+            self.vals[s.target.id] = ("sum", tuple(parts)) if len(parts) > 1 else parts[0]
             return
         if isinstance(s, ast.AugAssign) and isinstance(s.target, ast.Name) and isinstance(s.op, ast.BitOr):
             old = self.vals.get(s.target.id, ("const", 0))
@@ -705,6 +715,8 @@ class DecoderLayout:
         """e as v + Lin (the Lin part), or None when e is not of that form."""
         if isinstance(e, ast.Name) and e.id == v:
             return Lin(0)
+        if isinstance(e, ast.Name) and e.id in getattr(self, "hdralias", {}) and self.hdr.get("var") == v:
+            return self.hdralias[e.id]
         if isinstance(e, ast.BinOp) and isinstance(e.op, (ast.Add, ast.Sub)):
             pairs = ((e.left, e.right),) if isinstance(e.op, ast.Sub) else ((e.left, e.right), (e.right, e.left))
             for a, b in pairs:
@@ -810,6 +822,12 @@ class DecoderLayout:
             n = n.args[0]
         elif isinstance(n, ast.Compare) and len(n.ops) == 1:
             ok, c = self.fold(n.comparators[0])
+            if ok and isinstance(c, int) and not isinstance(n.left, ast.BinOp) and type(n.ops[0]).__name__ in ("GtE", "Gt", "Lt", "LtE"):
+                # the top bit of a byte tested on the whole byte: b >= 0x80 / b > 0x7F  ==  (b & 0x80) != 0;  b < 0x80 / b <= 0x7F  ==  == 0
+                opn = type(n.ops[0]).__name__
+                bit = c if opn in ("GtE", "Lt") else c + 1
+                if bit == 0x80:
+                    return n.left, 0x80, 0, ("NotEq", 0) if opn in ("GtE", "Gt") else ("Eq", 0)
             if ok:
                 cmpc = (type(n.ops[0]).__name__, c)
                 n = n.left
@@ -918,6 +936,13 @@ class DecoderLayout:
                 else:
                     r["consumed"] = False
                 return
+            # start = v + k with v the index the fixed-header scan stopped at (the result of a helper that skips the header)
+            if isinstance(t, ast.Name) and self.hdr.get("var") and t.id != self.hdr["var"] and not isinstance(v, ast.Subscript):
+                rl = self._rel_to(v, self.hdr["var"])
+                if rl is not None and any(isinstance(x, ast.Name) and (x.id == self.hdr["var"] or x.id in getattr(self, "hdralias", {})) for x in ast.walk(v)):
+                    self.hdralias = getattr(self, "hdralias", {})
+                    self.hdralias[t.id] = rl
+                    return
             # rest2 = rest  (another name for the same position; results of inlined helpers)
             if isinstance(t, ast.Name) and isinstance(v, ast.Name) and v.id in self.cursors:
                 self.cursors[t.id] = self.cursors[v.id]
